@@ -8,7 +8,6 @@ package certworld
 import (
 	"context"
 	"crypto/ecdsa"
-	"encoding/json"
 	"errors"
 	"fmt"
 	"math/big"
@@ -277,7 +276,9 @@ func (x *exec) build(s state, stage uint64, maxSize uint, finalized uint64, chec
 
 // record turns a built certificate into the record the aggsender stores after sending it.
 func (x *exec) record(b *Built, status agglayertypes.CertificateStatus, dropPrevLER bool) certRec {
-	raw, _ := json.Marshal(b.Cert)
+	// the stored JSON copy of the sent certificate is never read by the builder: a stub keeps the
+	// execution cheap
+	raw := []byte(fmt.Sprintf(`{"network_id":%d,"height":%d}`, b.Cert.NetworkID, b.Cert.Height))
 	x.seq++
 	prev := b.Cert.PrevLocalExitRoot
 	root := b.Params.L1InfoTreeRootFromWhichToProve
